@@ -28,7 +28,8 @@ Inductive skind :=
 Record site := mkSite {
   s_root : string; s_fn : string; s_pos : string; s_kind : skind;
   s_held : list (slock * bool); s_facts : list (snode * snode);
-  s_pre : list (slock * bool) }.
+  s_pre : list (slock * bool);
+  s_undeferred : list (slock * bool) }.   (* backend calls: held locks whose release is not deferred *)
 
 Fixpoint snode_eqb (a b : snode) : bool :=
   match a, b with
